@@ -19,6 +19,10 @@ TranslationError and the check reports a broken tie - it never guesses):
   site 7  transport/requests.py               choose_boundary: os.urandom -> multipart boundary (every phase, multipart bodies)
   site 10+ set iteration whose order is observable (PYTHONHASHSEED): `for x in {..}` / comprehension over a set-valued local whose
           body draws (`draw(`, `.is_enabled(`) or that is not consumed by sorted()/`.sort()`
+  site 20+ engine/phases/unit/__init__.py     state a worker keeps across operations: locals of worker_task bound outside the operation
+                                              loop and read inside it; in-place mutation in get_strategy_kwargs of an object it did not
+                                              create; module-level mutable state; TaskProducer.next_operation must be one shared
+                                              iterator under the lock                                           -> Ambient SharedState
   gen_cli_seed                                cli/commands/run/__init__.py: the `if generation_seed is None and not
                                               generation_deterministic: seed = Random().getrandbits(128) else: seed = generation_seed`
                                               statement, translated expression by expression
@@ -601,6 +605,145 @@ def hash_order_sites(root: Path) -> list[dict]:
 
 
 # ----------------------------------------------------------------------------------------
+# sites 20+: state that outlives one operation inside a worker (the hypothesis of the workers theorem, checked where it can be)
+# ----------------------------------------------------------------------------------------
+_MUTATORS = {"update", "setdefault", "append", "extend", "add", "pop", "popitem", "clear", "insert", "remove", "discard", "sort", "reverse"}
+_FRESH_CALLS = {"dict", "list", "set", "defaultdict", "OrderedDict", "deque", "deepclone", "deepcopy", "copy"}
+
+
+def _is_fresh_value(node) -> bool:
+    if isinstance(node, (ast.Dict, ast.List, ast.Set, ast.DictComp, ast.ListComp, ast.SetComp, ast.Constant, ast.JoinedStr, ast.Tuple)):
+        return True
+    if isinstance(node, ast.Call):
+        name = dotted(node.func) or ""
+        return name.split(".")[-1] in _FRESH_CALLS
+    return False
+
+
+def _root_name(node):
+    while isinstance(node, (ast.Attribute, ast.Subscript)):
+        node = node.value
+    return node.id if isinstance(node, ast.Name) else None
+
+
+def _own_nodes(fn):
+    """Nodes of a function body without the bodies of nested function definitions."""
+    stack = list(fn.body)
+    while stack:
+        node = stack.pop()
+        yield node
+        for child in ast.iter_child_nodes(node):
+            if isinstance(child, (ast.FunctionDef, ast.AsyncFunctionDef, ast.Lambda)):
+                continue
+            stack.append(child)
+
+
+def _bound_names(node) -> list[str]:
+    out = []
+    if isinstance(node, ast.Assign):
+        targets = node.targets
+    elif isinstance(node, (ast.AnnAssign, ast.AugAssign)):
+        targets = [node.target]
+    elif isinstance(node, (ast.For, ast.AsyncFor)):
+        targets = [node.target]
+    elif isinstance(node, (ast.With, ast.AsyncWith)):
+        targets = [i.optional_vars for i in node.items if i.optional_vars is not None]
+    elif isinstance(node, ast.NamedExpr):
+        targets = [node.target]
+    else:
+        return out
+    for t in targets:
+        for n in ast.walk(t):
+            if isinstance(n, ast.Name) and isinstance(n.ctx, ast.Store):
+                out.append(n.id)
+    return out
+
+
+def cross_operation_sites(root: Path) -> list[dict]:
+    """`worker_task` handles one operation per iteration of its while loop.  Anything a worker keeps ACROSS iterations and reads
+    inside one, or a per-operation helper that mutates an object it did not create itself, is state written while one operation is
+    generated and read while another is: the Section hypothesis of C13_workers_do_not_change_multiset does not hold for it."""
+    rel = "engine/phases/unit/__init__.py"
+    tree = parse(root, rel)
+    fns = functions(tree)
+    _need("worker_task" in fns and "get_strategy_kwargs" in fns, f"{rel}: worker_task / get_strategy_kwargs is gone")
+    wt = fns["worker_task"]
+    loops = [n for n in _own_nodes(wt) if isinstance(n, ast.While)]
+    _need(len(loops) == 1, f"{rel}: worker_task must have exactly one operation loop, found {len(loops)}")
+    loop = loops[0]
+    _need("has_to_stop" in ast.unparse(loop.test), f"{rel}:{loop.lineno}: unexpected loop condition")
+    in_loop = {id(n) for st in loop.body for n in ast.walk(st)}
+    params = {a.arg for a in wt.args.args + wt.args.kwonlyargs}
+    sites = []
+    # (a) locals bound outside the loop and read inside it
+    outside = {}
+    for node in _own_nodes(wt):
+        if id(node) in in_loop or node is loop:
+            continue
+        for name in _bound_names(node):
+            outside.setdefault(name, node.lineno)
+    read_inside = {n.id for st in loop.body for n in ast.walk(st) if isinstance(n, ast.Name) and isinstance(n.ctx, ast.Load)}
+    for name, line in sorted(outside.items(), key=lambda kv: kv[1]):
+        if name in read_inside and name not in params:
+            sites.append(f"{rel}:{line} worker_task keeps `{name}` across operations (bound outside the operation loop, read inside it)")
+    # (b) per-operation helpers of this module called from the loop must not mutate objects they did not create
+    called = {c.func.id for st in loop.body for c in ast.walk(st) if isinstance(c, ast.Call) and isinstance(c.func, ast.Name)}
+    _need("get_strategy_kwargs" in called, f"{rel}: the operation loop no longer calls get_strategy_kwargs")
+    for helper in sorted(called & set(fns)):
+        fn = fns[helper]
+        if fn is wt or any(fn is n for n in ast.walk(wt)):
+            continue  # nested helpers (on_error) only put events on the queue
+        fresh: dict[str, bool] = {}
+        for node in _own_nodes(fn):
+            if isinstance(node, (ast.Assign, ast.AnnAssign)) and getattr(node, "value", None) is not None:
+                for name in _bound_names(node):
+                    # only whole-name rebinding counts; `x[k] = v` binds nothing
+                    tgt = node.targets if isinstance(node, ast.Assign) else [node.target]
+                    if any(isinstance(t, ast.Name) and t.id == name for t in tgt):
+                        fresh[name] = fresh.get(name, True) and _is_fresh_value(node.value)
+        for node in _own_nodes(fn):
+            victim = None
+            if isinstance(node, ast.Call) and isinstance(node.func, ast.Attribute) and node.func.attr in _MUTATORS:
+                victim = _root_name(node.func.value)
+            elif isinstance(node, (ast.Assign, ast.AugAssign)):
+                tgt = node.targets if isinstance(node, ast.Assign) else [node.target]
+                for t in tgt:
+                    if isinstance(t, (ast.Subscript, ast.Attribute)):
+                        victim = _root_name(t)
+            elif isinstance(node, ast.Delete):
+                for t in node.targets:
+                    if isinstance(t, (ast.Subscript, ast.Attribute)):
+                        victim = _root_name(t)
+            if victim is not None and not fresh.get(victim, False):
+                sites.append(f"{rel}:{node.lineno} {helper} mutates `{victim}` in place, an object it did not create (shared between operations)")
+    # (c) no module-level mutable state, no `global`
+    for st in tree.body:
+        if isinstance(st, (ast.Assign, ast.AnnAssign)) and getattr(st, "value", None) is not None and not isinstance(st.value, ast.Constant):
+            if isinstance(st.value, (ast.Dict, ast.List, ast.Set, ast.DictComp, ast.ListComp, ast.SetComp, ast.Call)):
+                sites.append(f"{rel}:{st.lineno} module-level mutable state `{ast.unparse(st)[:60]}`")
+    for node in ast.walk(tree):
+        if isinstance(node, (ast.Global, ast.Nonlocal)):
+            sites.append(f"{rel}:{node.lineno} `{ast.unparse(node)}`")
+    # (d) the task producer hands out every operation once: shared iterator under the lock
+    rel2 = "engine/phases/unit/_pool.py"
+    tree2 = parse(root, rel2)
+    fns2 = functions(tree2)
+    _need("next_operation" in fns2, f"{rel2}: TaskProducer.next_operation is gone")
+    body = [st for st in fns2["next_operation"].body if not (isinstance(st, ast.Expr) and isinstance(st.value, ast.Constant))]
+    ok = (
+        len(body) == 1 and isinstance(body[0], ast.With) and ast.unparse(body[0].items[0].context_expr) == "self.lock"
+        and len(body[0].body) == 1 and ast.unparse(body[0].body[0]) == "return next(self.operations, None)"
+    )
+    _need(ok, f"{rel2}: next_operation is no longer `with self.lock: return next(self.operations, None)` (one shared iterator)")
+    _need("self.operations = ctx.schema.get_all_operations(" in (root / rel2).read_text(), f"{rel2}: the shared operations iterator changed shape")
+    out = []
+    for i, where in enumerate(sites):
+        out.append({"id": 20 + i, "tag": ("Ambient", "SharedState"), "phases": ["Examples", "Coverage", "Fuzzing"], "neg_only": False,
+                    "multipart_only": False, "in_request": True, "where": where})
+    return out
+
+
+# ----------------------------------------------------------------------------------------
 # CLI seed selection
 # ----------------------------------------------------------------------------------------
 def _cli_expr(node, where) -> str:
@@ -793,6 +936,7 @@ def translate(root: Path | None = None) -> dict:
     if b is not None:
         sites.append(b)
     sites += hash_order_sites(root)
+    sites += cross_operation_sites(root)
     cli_body, cli_where = cli_seed(root)
     problems = []
     try:
